@@ -48,9 +48,9 @@ DOMAIN = {
     "display_graded": [True, False],
     "display_reverse": [True, False],
     "display_inverse": [True, False],
-    "display_exponent": ["**", "^"],
-    "display_multiply": ["*", " * ", "·"],
-    "force_number_suffix": [True, False],
+    "display_exponent": ["**", "^", "**", None],  # (values are not validated: None, 0 and "" can be stored like anything else)
+    "display_multiply": ["*", " * ", "·", ""],
+    "force_number_suffix": [True, False, None, 0],
     "retain_names": [True, False],
     "retain_coefficients": [True, False],
     "sort_graded": [True, False],
